@@ -41,6 +41,7 @@ type Violation struct {
 
 type abortExec struct{}
 type skipShard struct{}
+type pruneExec struct{}
 
 // EngineError is a failure of the machinery itself (never a verdict).
 type EngineError struct{ Msg string }
@@ -229,6 +230,7 @@ func (c *Ctx) Path() []int { return append([]int(nil), c.path[:c.pos]...) }
 
 type execResult struct {
 	skipped bool
+	pruned  bool
 	viol    *Violation
 }
 
@@ -245,6 +247,8 @@ func (c *Ctx) runOnce(run func(*Ctx)) (res execResult) {
 			res.viol = c.viol
 		case skipShard:
 			res.skipped = true
+		case pruneExec:
+			res.pruned = true
 		case EngineError:
 			panic(v)
 		default:
@@ -293,3 +297,12 @@ func (c *Ctx) Barrier() {
 		}
 	}
 }
+
+// NewNode reports whether the next Pick opens a choice-tree node that no earlier
+// execution has visited (false while a recorded prefix is being replayed).
+func (c *Ctx) NewNode() bool { return c.pos >= len(c.path) }
+
+// Prune ends the execution without a verdict because the state it has reached was
+// reached before (by an execution whose continuations are all explored): the execution
+// is counted as pruned, not as a complete trace.
+func (c *Ctx) Prune() { panic(pruneExec{}) }
